@@ -1,7 +1,7 @@
 (* C01 — Two endpoints built on the library interoperate, even across transport loss.
    Statements only.  Nothing else may be added to this file. *)
 From MQ Require Import Base.Prelude Alloc.Alloc Alloc.AllocProofs Framing.Framing Framing.FramingProofs Conn.Types Conn.ConnRecord Conn.Step
-                       Corr.ConnTrace Conn.Scope Conn.Session Conn.IdsQuota Conn.Own Conn.OwnFrame Conn.OwnStep Conn.Run Conn.PairQos Conn.PairQos0 Conn.PairQos5 Conn.PairSeq Conn.PairSeq5 Conn.PairConc Conn.PairBi Conn.PairConc5 Conn.PairBi5 Conn.PairHandshake5 Conn.PairHandshake311 Conn.PairManual Conn.PairManual5 Conn.PairManualSeq Conn.PairManualSeq5 Conn.PairHandshakeSeq Conn.SessInv Conn.PairLoss Conn.PairLossAcc Conn.PairLossS Conn.PairHandshakeP.
+                       Corr.ConnTrace Conn.Scope Conn.Session Conn.IdsQuota Conn.Own Conn.OwnFrame Conn.OwnStep Conn.Run Conn.PairQos Conn.PairQos0 Conn.PairQos5 Conn.PairSeq Conn.PairSeq5 Conn.PairConc Conn.PairBi Conn.PairConc5 Conn.PairBi5 Conn.PairHandshake5 Conn.PairHandshake311 Conn.PairConcIds Conn.PairManual Conn.PairManual5 Conn.PairManualSeq Conn.PairManualSeq5 Conn.PairHandshakeSeq Conn.SessInv Conn.PairLoss Conn.PairLossAcc Conn.PairLossS Conn.PairHandshakeP.
 
 (* what the pair property rests on, each proved for ALL states of one endpoint:
    (i) delivery in any fragmentation is the same byte stream (C09) *)
@@ -300,6 +300,37 @@ Theorem C01_fresh_v311_endpoints_interoperate : forall gA gB cn ca l,
     qab s2 = [] /\ qba s2 = [] /\ delB s2 = pubA s1 /\ delA s2 = pubB s1.
 Proof. exact fresh_v311_endpoints_interoperate. Qed.
 Print Assumptions C01_fresh_v311_endpoints_interoperate.
+
+(* AT QUIESCENCE EVERY PACKET IDENTIFIER HAS BEEN RELEASED (Conn/PairConcIds.v; v3.1.1, several exchanges in flight, intact
+   links).  [U]: every identifier in use at the sender belongs to a packet in flight — kept by every action (a publication
+   registers exactly the identifier of the PUBLISH it puts in flight; a delivery to the receiver moves it to the
+   acknowledgement; PUBREC moves it to the PUBREL; the final acknowledgement releases it with the last packet that carried
+   it).  So after any schedule and the drain no identifier is in use *)
+Theorem C01_pair_all_identifiers_released : forall gs gr l s,
+  inv gs gr s -> U s -> Forall good_act l ->
+  exists s1 s2, run_sched gs gr s l = Some s1 /\ run_sched gs gr s1 (drain_links (measure s1)) = Some s2 /\
+                qsr s2 = [] /\ qrs s2 = [] /\ delivered s2 = published s1 /\ forall y, is_used (cs s2) y = false.
+Proof. exact all_identifiers_released. Qed.
+Print Assumptions C01_pair_all_identifiers_released.
+
+(* ... end to end from freshly constructed objects and any Clean Session handshake *)
+Theorem C01_fresh_v311_all_identifiers_released : forall gA gB cn ca l,
+  1 <= g_idmax gA -> 1 <= g_idmax gB -> role_client_ok gA = true -> role_server_ok gB = true ->
+  k_type cn = T_CONNECT -> k_ver cn = V311 -> k_flag cn = true ->
+  k_type ca = T_CONNACK -> k_ver ca = V311 -> k_rc ca = 0 -> k_flag ca = false ->
+  Forall good_act l ->
+  let A0 := set_auto_pub (conn_new gA V311) true in
+  let B0 := set_auto_pub (conn_new gB V311) true in
+  exists A1 e1 B1 e2 B2 e3 A2 e4 s1 s2,
+    step gA A0 (OSend cn) = Ok (A1, e1, []) /\ deliver gB B0 cn = Ok (B1, e2) /\
+    step gB B1 (OSend ca) = Ok (B2, e3, []) /\ deliver gA A1 ca = Ok (A2, e4) /\
+    run_sched gA gB (mkSys A2 B2 [] [] [] []) l = Some s1 /\
+    run_sched gA gB s1 (drain_links (measure s1)) = Some s2 /\
+    qsr s2 = [] /\ qrs s2 = [] /\ delivered s2 = published s1 /\
+    (* at quiescence every packet identifier has been released *)
+    forall y, is_used (cs s2) y = false.
+Proof. exact fresh_v311_all_identifiers_released. Qed.
+Print Assumptions C01_fresh_v311_all_identifiers_released.
 
 (* MANUAL RESPONSES (Conn/PairManual.v; auto_pub_response off, v3.1.1): the library requests nothing by itself; the
    applications send PUBACK / PUBREC / PUBREL / PUBCOMP through the ordinary send call.  From every admissible pair of
